@@ -148,6 +148,8 @@ def front_obs(r):
         return ('panic', r['panic'], None)
     if 'abort' in r:
         return ('abort', r['abort'], None)
+    if 'hang' in r:
+        return ('hang', r['hang'], None)
     if 'err' in r:
         return ('err', r['err'], None)
     pd = r['ok']
